@@ -110,6 +110,9 @@ func c30Scenarios() []c30Scenario {
 		{"first-block-ever+append", nil, []fixture.Block{b(tA1, 1, r4a, r6a), b(tA2, 2, r4b)}},
 		{"two-appends", []fixture.Block{b(tA1, 1, r4a, r6a), b(tA2, 2, r4d, r6d)}, []fixture.Block{b(dayA+900, 3, r4b, r6b), b(dayA+1200, 4, r4c)}},
 		{"new-day-in-new-month", []fixture.Block{b(tA1, 1, r4a, r6a), b(tB1, 2, r6b)}, []fixture.Block{b(tD1, 3, r4b, r6c)}},
+		// the day starts with an idle interval (a block without flows: its attribute columns are never opened
+		// by a reader), so a reader meets the renamed directory with columns in different states
+		{"idle-block-first+append", []fixture.Block{b(tA1, 1), b(tA2, 2, r4d, r6d)}, []fixture.Block{b(dayA+900, 3, r4b)}},
 	}
 }
 
@@ -390,8 +393,8 @@ func c30ErrClass(err error) string {
 func init() {
 	register("C30", &explore.Scenario{
 		ID: "C30", Name: "all interleavings of reader and writer file-system steps", Level: "model_checking",
-		Rule:  "cases = 4 writer scenarios (append with suffix rename + first block of a new day; first block ever; two appends; new day in a new month) x 3 readers (raw+time query, same in low-memory mode, interface listing); the real writer (1-2 write-outs through DBWriter.Write) and the real reader run as goroutines that block in the vos controller before every file-system step; wherever both have a step pending the explorer branches on who goes first; all interleavings with at most 2 (thorough 3) preemptions (a switch away from a thread that could continue), either thread first, memoised on (writer pc, reader pc, hash of all results the reader has observed, writer progress at reader start). state = that key; non-trivial = interleavings where the reader overlaps at least one write-out, distinct by (reader observation history, overlap window)",
-		Cases: func(t string) int { return 12 },
+		Rule:  "cases = 5 writer scenarios (append with suffix rename + first block of a new day; first block ever; two appends; new day in a new month; append to a day whose first block has no flows) x 3 readers (raw+time query, same in low-memory mode, interface listing); the real writer (1-2 write-outs through DBWriter.Write) and the real reader run as goroutines that block in the vos controller before every file-system step; wherever both have a step pending the explorer branches on who goes first; all interleavings with at most 2 (thorough 3) preemptions (a switch away from a thread that could continue), either thread first, memoised on (writer pc, reader pc, hash of all results the reader has observed, writer progress at reader start). state = that key; non-trivial = interleavings where the reader overlaps at least one write-out, distinct by (reader observation history, overlap window)",
+		Cases: func(t string) int { return 3 * len(c30Scenarios()) },
 		Bound: func(t string) int {
 			if t == "thorough" {
 				return 3
